@@ -9,6 +9,7 @@ from warnings import warn
 import contextlib
 import json
 import numbers
+import re
 
 from jsonschema import (
     _legacy_validators,
@@ -40,6 +41,9 @@ class _DontDoThat(Exception):
 
 validators = {}
 meta_schemas = _utils.URIDict()
+
+# A JSON Pointer array index: no sign, no leading zeros, ASCII digits only
+_ARRAY_INDEX = re.compile(u"0|[1-9][0-9]*")
 
 
 def _generate_legacy_type_checks(types=()):
@@ -785,18 +789,23 @@ class RefResolver(object):
                 a URI fragment to resolve within it
         """
 
-        fragment = fragment.lstrip(u"/")
-        parts = unquote(fragment).split(u"/") if fragment else []
+        fragment = unquote(fragment)
+        if fragment.startswith(u"/"):
+            fragment = fragment[1:]
+            parts = fragment.split(u"/")
+        else:
+            parts = fragment.split(u"/") if fragment else []
 
         for part in parts:
             part = part.replace(u"~1", u"/").replace(u"~0", u"~")
 
-            if isinstance(document, Sequence):
+            if (
+                isinstance(document, Sequence) and
+                not isinstance(document, str) and
+                _ARRAY_INDEX.fullmatch(part)
+            ):
                 # Array indexes should be turned into integers
-                try:
-                    part = int(part)
-                except ValueError:
-                    pass
+                part = int(part)
             try:
                 document = document[part]
             except (TypeError, LookupError):
